@@ -216,4 +216,9 @@ def run(env, rep):
             rep.check("C07.R6", "slice-starts-inside-payload", S.prove_lt(rb[0], ln), "every slice taken in the splitting loop starts before the end of the payload (start %s < len)" % stable(rb[0]),
                       "the splitting loop can take a slice starting at %s, which is not provably < the payload length: a message whose length is an exact multiple of the chunk size "
                       "would get an extra, empty chunk after it is complete" % stable(rb[0]), t["span"])
-    rep.floor("C07.R6", "payload slices taken inside the splitting loop", n6, 1)
+    for o in it.walk():
+        if o.kind == "precond:chunks":
+            # <[T]>::chunks never yields an empty slice (std documentation)
+            n6 += 1
+            rep.ok("C07.R6", "slices-from-chunks", "the payload is split by <[T]>::chunks, which yields only non-empty slices", o.span)
+    rep.floor("C07.R6", "payload slices taken by the splitting construct", n6, 1)
